@@ -27,6 +27,26 @@ def loop_nodes(L):
     lim_in = ["limit"] if lim == "limit" else []
     stepexpr = "step" if L.get("step_input") else str(L["step"])
     nodes = []
+    if form == "chat":
+        # the documented "shared outputs in a cycle" pattern: two accumulators write `messages`, ordered by emit/wait_for
+        lim2 = limit_expr(L)
+        stop = "done" if L["exit"] == "node" else "END"
+        nodes += [
+            {"k": "func", "name": "gq", "params": ["messages"], "defaults": {}, "outs": ["query"], "expr": "('q', len(messages))"},
+            {"k": "func", "name": "aq", "params": ["messages", "query"], "defaults": {}, "outs": ["messages"], "emit": ["query_done"], "expr": "messages + (query,)"},
+            {"k": "func", "name": "gr", "params": ["messages"], "defaults": {}, "outs": ["response"], "expr": "('r', len(messages))"},
+            {"k": "func", "name": "ar", "params": ["messages", "response"], "defaults": {}, "outs": ["messages"], "wait_for": ["query_done"], "expr": "messages + (response,)"},
+        ]
+        g = {"name": "g", "defaults": {}, "default_open": True, "params": ["messages"] + (["limit"] if lim2 == "limit" else [])}
+        cond = f"len(messages) < {lim2}"
+        if L["gate"] == "ifelse":
+            g.update({"k": "ifelse", "t": "gq", "f": stop, "expr": cond})
+        else:
+            g.update({"k": "route", "targets": ["gq", stop], "fallback": None, "multi": False, "expr": f"'gq' if {cond} else '{stop}'"})
+        nodes.append(g)
+        if L["exit"] == "node":
+            nodes.append({"k": "func", "name": "done", "params": ["messages"], "defaults": {}, "outs": ["res"], "expr": "('done', len(messages))"})
+        return nodes
     if form == "selfsignal":
         # the gate's target accumulates into the carried variable itself; a later body node (which also runs once at
         # entry, its inputs being supplied) emits the end-of-iteration signal the gate waits for
@@ -138,6 +158,9 @@ def loop_values(L):
         vals["acc"] = ()
     if L["form"] == "selfsignal":
         vals["tot"] = ()
+    if L["form"] == "chat":
+        vals = {k: v for k, v in vals.items() if k != "i"}
+        vals["messages"] = ()
     return vals
 
 
@@ -145,6 +168,28 @@ def eval_loop(L):
     """Literal sequential execution. Returns (env, body counts, trajectories {var: [values in order]})."""
     k, form, start, step, limit = L["k"], L["form"], L["start"], L["step"], L["limit"]
     e = L.get("entry", 0)
+    if form == "chat":
+        # limit is even and >= 0: every turn appends one query and one response
+        msgs, n = (), 0
+        traj = {"messages": [()]}
+        env = {}
+        while len(msgs) < limit:
+            q = ("q", len(msgs))
+            # the responder is not ordered after the query accumulator (as in the documented pattern): it and the response
+            # accumulator become ready in the same superstep, so the response accumulated in a turn is the one computed from
+            # the messages BEFORE that turn's query was appended
+            r = ("r", len(msgs))
+            msgs += (q,)
+            traj["messages"].append(msgs)
+            msgs += (r,)
+            traj["messages"].append(msgs)
+            env["query"] = q
+            n += 1
+        env["messages"] = msgs
+        env["response"] = ("r", len(msgs))  # the ungated responder runs on the initial messages and re-runs on every change
+        if L["exit"] == "node":
+            env["res"] = ("done", len(msgs))
+        return env, Counter({"aq": n, "ar": n, "gq": n}), traj, n
     if form == "selfsignal":
         i, tot, n = start, (start,), 0
         traj = {"i": [start], "tot": [(), (start,)]}
